@@ -7,8 +7,16 @@ already carries it through every history.  Here: it is preserved by each of the 
 (`rebalance_after_insert`, `rebalance_after_delete` with all CLRS cases and mirror images, the
 two-child rule, first/last, iterator removal), it bounds the height by `2·⌊log₂(n+1)⌋`, and every
 public call on a table holding `n` keys invokes the comparator at most `2·⌊log₂(n+1)⌋ + 2` times.
-Nothing is assumed about the comparator for the balance statements; the history statements assume
-a total-order comparator (so that the table is a search tree). -/
+Nothing is assumed about the comparator for the per-function balance statements and for
+`balanced_any_cmp`; the history statements assume a total-order comparator (so that the table is a
+search tree and the size field can be tracked through the ideal map).
+
+**Model boundary.**  Balance is proved for the algebraic tree.  That the pointer code — rotations with
+their re-parenting lines, `transplant`, and `rebalance_after_delete` reading `x->parent` of the shared
+sentinel (the "sentinel parent trick") — performs CLRS's cases at these nodes is not a theorem here: it
+rests on the correspondence harness, which compares the complete pre-order dump (keys, values, colours,
+shape) of the C heap with this model after every operation and walks parent pointers, colours and black
+heights on the C heap itself. -/
 namespace CC.Properties.C17
 open CC CC.Spec CC.Spec.OrdMap
 
@@ -40,7 +48,7 @@ theorem insert_comparisons (k v : Nat) (t : Tree) : (Tree.ins cmp k v t).2.2 ≤
 /-- **C17, one call**: on a table holding `n = t.size` keys any public call keeps the tree balanced
 and invokes the comparator at most `2·⌊log₂(n+1)⌋ + 2` times -/
 theorem C17_step (ho : TotalOrder cmp) (t : TreeTable) (h : t.Inv cmp) (op : Op) (m : Mem)
-    (hm : t.size + 2 ≤ m.live) :
+    (hm : TreeTable.Owns t m) :
     (t.step cmp op m).2.1.root.RB ∧
     (t.step cmp op m).2.1.root.height ≤ 2 * Nat.log2 ((t.step cmp op m).2.1.size + 1) ∧
     (t.step cmp op m).2.2.2 ≤ 2 * Nat.log2 (t.size + 1) + 2 := by
@@ -52,23 +60,106 @@ theorem C17_step (ho : TotalOrder cmp) (t : TreeTable) (h : t.Inv cmp) (op : Op)
 under any allocator schedule): the tree is balanced at the end — hence after every prefix — and every
 single call stayed within the comparator budget for the number of keys it found. -/
 theorem C17 (ho : TotalOrder cmp) (ops : List (Op × List Bool)) (t : TreeTable) (h : t.Inv cmp) (m : Mem)
-    (hm : t.size + 2 ≤ m.live) :
+    (hm : TreeTable.Owns t m) :
     (t.run cmp ops m).2.2.1.root.RB ∧
     (t.run cmp ops m).2.2.1.root.height ≤ 2 * Nat.log2 ((t.run cmp ops m).2.2.1.size + 1) ∧
     ∀ p ∈ (t.run cmp ops m).2.1, p.2 ≤ 2 * Nat.log2 (p.1 + 1) + 2 := by
-  obtain ⟨_, _, c, _, _, f⟩ := C03.history_refines ho ops t h m hm
+  obtain ⟨_, _, c, _, _, _, f⟩ := C03.history_refines ho ops t h m hm
   refine ⟨c.2.1, ?_, f⟩
   rw [c.2.2]; exact height_bound _ c.2.1
 
-/-- removal through the iterator keeps the tree balanced as well -/
+/-- removal through the iterator keeps the tree balanced as well (`iter_next` / `iter_remove` make no
+comparator calls in the C code, so there is no count to bound) -/
 theorem C17_iterator (ho : TotalOrder cmp) (t : TreeTable) (h : t.Inv cmp) (prog : List IterOp) (m : Mem)
-    (hm : t.size + 2 ≤ m.live) :
+    (hm : TreeTable.Owns t m) :
     (t.iterRun cmp t.iterInit prog m).2.1.root.RB ∧
     (t.iterRun cmp t.iterInit prog m).2.1.root.height ≤
       2 * Nat.log2 ((t.iterRun cmp t.iterInit prog m).2.1.size + 1) := by
-  have c := (C03.iter_refines ho t h prog m hm).2.2.1
+  have c := (C03.iter_refines_model ho t h prog m hm).2.2.1
   refine ⟨c.2.1, ?_⟩
   rw [c.2.2]; exact height_bound _ c.2.1
+
+/-- **C17 for sessions**: histories that interleave table calls with iterator sessions ("including
+removals through the iterator and of first/last") end in a balanced tree -/
+theorem C17_session (ho : TotalOrder cmp) (segs : List Segment) (t : TreeTable) (h : t.Inv cmp) (m : Mem)
+    (hm : TreeTable.Owns t m) :
+    (t.runSession cmp segs m).2.1.root.RB ∧
+    (t.runSession cmp segs m).2.1.root.height ≤ 2 * Nat.log2 ((t.runSession cmp segs m).2.1.size + 1) := by
+  have c := (C03.session_refines_model ho segs t h m hm).2.2.1
+  refine ⟨c.2.1, ?_⟩
+  rw [c.2.2]; exact height_bound _ c.2.1
+
+/-- balance needs no assumption on the comparator: for **any** function `cmp` (not even an order) every
+call preserves "red-black rules ∧ size field = node count", and the comparator budget holds -/
+theorem balanced_any_cmp (t : TreeTable) (hrb : t.root.RB) (hs : t.size = t.root.size) (op : Op) (m : Mem) :
+    (t.step cmp op m).2.1.root.RB ∧
+    ((t.step cmp op m).2.2.2 ≤ 2 * Nat.log2 (t.size + 1) + 2) := by
+  have hlook : ∀ k, (t.lookup cmp k).2 ≤ 2 * Nat.log2 (t.size + 1) := by
+    intro k
+    unfold TreeTable.lookup
+    split
+    · exact Nat.zero_le _
+    · rw [hs]; exact Nat.le_trans (Tree.find_cnt_le_height k t.root) (height_bound _ hrb)
+  cases op with
+  | add k v =>
+    have hc : (Tree.ins cmp k v t.root).2.2 ≤ 2 * Nat.log2 (t.size + 1) := by
+      rw [hs]; exact Nat.le_trans (Tree.ins_cnt_le_height k v t.root) (height_bound _ hrb)
+    simp only [TreeTable.step]; unfold TreeTable.add; dsimp only
+    split
+    · rename_i hn
+      simp only [Bool.not_eq_true'] at hn
+      exact ⟨Tree.RB_replace k v t.root hrb hn, by show (Tree.ins cmp k v t.root).2.2 ≤ _; omega⟩
+    · split
+      · exact ⟨hrb, by show (Tree.ins cmp k v t.root).2.2 ≤ _; omega⟩
+      · refine ⟨Tree.RB_insert k v t.root hrb, ?_⟩
+        show (if t.root = .nil then _ else _) ≤ _
+        split <;> omega
+  | remove k =>
+    have := hlook k
+    simp only [TreeTable.step]; unfold TreeTable.remove
+    generalize t.lookup cmp k = r at this ⊢
+    rcases r with ⟨_ | v, n⟩
+    · exact ⟨hrb, by simp only at this ⊢; omega⟩
+    · exact ⟨Tree.RB_delete k t.root hrb, by simp only at this ⊢; omega⟩
+  | removeFirst =>
+    simp only [TreeTable.step]; unfold TreeTable.removeFirst
+    split
+    · exact ⟨hrb, Nat.zero_le _⟩
+    · cases t.root.minEntry with
+      | none => exact ⟨hrb, Nat.zero_le _⟩
+      | some e => exact ⟨Tree.RB_delMin t.root hrb, Nat.zero_le _⟩
+  | removeLast =>
+    simp only [TreeTable.step]; unfold TreeTable.removeLast
+    split
+    · exact ⟨hrb, Nat.zero_le _⟩
+    · cases t.root.maxEntry with
+      | none => exact ⟨hrb, Nat.zero_le _⟩
+      | some e => exact ⟨Tree.RB_delMax t.root hrb, Nat.zero_le _⟩
+  | removeAll => exact ⟨⟨trivial, rfl⟩, Nat.zero_le _⟩
+  | get k =>
+    refine ⟨hrb, ?_⟩
+    have := hlook k
+    simp only [TreeTable.step]; unfold TreeTable.get
+    generalize t.lookup cmp k = r at this ⊢
+    rcases r with ⟨_ | v, n⟩ <;> (simp only at this ⊢; omega)
+  | containsKey k => exact ⟨hrb, by have := hlook k; simp only [TreeTable.step, TreeTable.containsKey]; omega⟩
+  | greaterThan k =>
+    refine ⟨hrb, ?_⟩
+    have := hlook k
+    simp only [TreeTable.step]; unfold TreeTable.greaterThan
+    generalize t.lookup cmp k = r at this ⊢
+    rcases r with ⟨_ | v, n⟩
+    · simp only at this ⊢; omega
+    · cases Tree.nextAfter t.root.toList k <;> (simp only at this ⊢; omega)
+  | lesserThan k =>
+    refine ⟨hrb, ?_⟩
+    have := hlook k
+    simp only [TreeTable.step]; unfold TreeTable.lesserThan
+    generalize t.lookup cmp k = r at this ⊢
+    rcases r with ⟨_ | v, n⟩
+    · simp only at this ⊢; omega
+    · cases Tree.prevBefore t.root.toList k <;> (simp only at this ⊢; omega)
+  | _ => exact ⟨hrb, Nat.zero_le _⟩
 
 /-! ## Non-vacuity: the bound is attained, and a degenerate tree violates the invariant -/
 
